@@ -236,7 +236,7 @@ func genPoolSpec(r *rt.Rand, name string) lk.PoolSpec {
 		Name:   name,
 		Key:    rt.Pick(r, []string{"k", "k", "k", "a.k", "this"}),
 		Order:  rt.Pick(r, []string{"asc", "desc"}),
-		Thresh: rt.Pick(r, []int64{1, 20, 60, 200, 0}),
+		Thresh: rt.Pick(r, []int64{1, 20, 30, 45, 60, 200, 0}),
 		Stride: rt.Pick(r, []int{1, 1, 16, 100, 0}),
 	}
 }
